@@ -8,6 +8,9 @@ Tie:     generated rules whose replacement equals the pattern by construction ar
          the graph the implementation ended with and every application must satisfy the executable side conditions
          of the soundness theorem (`side_okb`).  Verified checkers `wf_graphb` / `imports_ok` are evaluated on the
          real resulting protos.
+State:   every visit and splice is also replayed through coq/Rewrite/State.v (opset imports of every graph object, initializers,
+         functions table, node / value metadata_props): `check_state` compares the prediction with the state observed at the end
+         of the sweep; hosts carry metadata_props on nodes and values (decorate_metadata).
 Oracle:  onnx.checker, onnxruntime (ORT_DISABLE_ALL) and onnx.reference before vs after on 3 inputs, graph
          signature, initializers, opset imports, functions, multiset of unmatched nodes, progress.
 """
@@ -28,7 +31,7 @@ from harness.common import clist
 PROPERTY = "C07"
 LEVEL = "proof"
 
-REQ = ["OV.Graph.Syntax", "OV.Graph.Wf", "OV.Rewrite.Apply", "OV.Rewrite.Order"]
+REQ = ["OV.Graph.Syntax", "OV.Graph.Wf", "OV.Rewrite.Apply", "OV.Rewrite.Order", "OV.Rewrite.State"]
 
 
 # ----------------------------------------------------------------------------- running models
@@ -327,6 +330,51 @@ KEY_SHADOW = "C07:fresh-name-clash:subgraph-value-shadows-enclosing-graph-value"
 KEY_FN_IMPORTS = "C07:as_function:match-inside-subgraph:function-opset-imports"
 
 
+# ----------------------------------------------------------------------------- metadata on the generated hosts
+
+RULE_NAME_TAG = "pkg.onnxscript.rewriter.rule_name"
+
+
+def decorate_metadata(model):
+    """metadata_props on some nodes (main graph, If/Loop bodies, functions) and on some values (value_info of the graphs), a
+    function of the names only: keys with and without a merger, empty values, a rule-name tag left by an earlier rewrite."""
+    import zlib
+
+    def node_meta(n):
+        out = next((o for o in n.output if o), "")
+        k = zlib.crc32(out.encode()) % 7
+        items = {2: [("namespace", "m/" + out)],
+                 3: [(RULE_NAME_TAG, "Old_" + out)],
+                 4: [("namespace", ""), ("pkg.torch.onnx.stack_trace", "st " + out)],
+                 5: [(RULE_NAME_TAG, "Prev"), ("namespace", "n/" + out), ("k", "v")],
+                 6: [("k", "w"), (RULE_NAME_TAG, "")]}.get(k, [])
+        for key, value in items:
+            p = n.metadata_props.add()
+            p.key, p.value = key, value
+
+    def graph(g, values=True):
+        for n in g.node:
+            node_meta(n)
+            for a in n.attribute:
+                if a.type == a.GRAPH:
+                    graph(a.g)
+            if values:
+                for o in n.output:
+                    if o and zlib.crc32(("v" + o).encode()) % 4 == 0 and o not in {x.name for x in g.output}:
+                        vi = g.value_info.add()
+                        vi.name = o
+                        p = vi.metadata_props.add()
+                        p.key, p.value = "vm", "of " + o
+    graph(model.graph)
+    for f in model.functions:
+        for n in f.node:
+            node_meta(n)
+            for a in n.attribute:
+                if a.type == a.GRAPH:
+                    graph(a.g)
+    return model
+
+
 # ----------------------------------------------------------------------------- one host through the real rewriter
 
 class HostResult:
@@ -429,7 +477,7 @@ def eval_host(ctx, label, host, families, rng, stream="gen", want_ref=True, chec
     """Run every oracle on one host; returns a HostResult (Coq cases are evaluated later in shards)."""
     import onnx
     res = HostResult()
-    model = G.to_model(host)
+    model = decorate_metadata(G.to_model(host))
     try:
         onnx.checker.check_model(model, full_check=True)
     except Exception as e:  # generator bug, never the implementation's fault
@@ -626,7 +674,8 @@ def eval_host(ctx, label, host, families, rng, stream="gen", want_ref=True, chec
     for k, r in enumerate(tracer.sweeps):
         if r["unmodelled"]:
             continue
-        res.coq_cases.append((f"{label}/{r['kind']}{k}", r["apps"], r["g0"], r["gfinal"], r["ext"]))
+        res.coq_cases.append((f"{label}/{r['kind']}{k}", r["apps"], r["g0"], r["gfinal"], r["ext"],
+                              dict(events=r["events"], s0=r["s0"], sfinal=r["sfinal"])))
         for d in check_cursor(r):
             res.ties.append(("iteration", f"{label}: {d}"))
     if not known_invalid:
@@ -673,17 +722,35 @@ def reference_instances(host, families):
 
 # ----------------------------------------------------------------------------- Coq evaluation of the collected cases
 
+FLAGS = ["as_is"]          # the repair flags of OV.Rewrite.State matching the source being checked (set by probe_flags)
+STATE_DIFF = {}            # label -> (code, event index, differing component) of the last coq_replay
+
+
+def probe_flags():
+    """Which of the two proposed repairs modelled by OV.Rewrite.State.flags the source under check contains."""
+    import inspect
+    import onnxscript.rewriter._rewrite_rule as rr
+    src = inspect.getsource(rr.RewriteRuleSet._apply_to_graph_or_function)
+    displaced = hasattr(rr, "_fresh_initializer_name") and "displaced" in src
+    owner = "graph_or_function.opset_imports.setdefault" in src
+    FLAGS[0] = f"(Flags {'true' if displaced else 'false'} {'true' if owner else 'false'})"
+    return displaced, owner
+
+
 def coq_replay(ctx, cases, shard=40):
     """cases: [(label, apps, g0, gfinal)].  Returns {label: (code, step)} for the failing ones, or None if Coq failed."""
     bodies, labels = [], []
     for s in range(0, len(cases), shard):
         chunk = cases[s:s + shard]
         lines = []
-        for i, (_label, apps, g0, gf, ext) in enumerate(chunk):
+        for i, (_label, apps, g0, gf, ext, st) in enumerate(chunk):
             lines.append(f"Definition g0_{i} : graph := {g0}.")
             lines.append(f"Definition gf_{i} : graph := {gf}.")
             lines.append(f"Definition ap_{i} : list (path * app * list vname) := {clist(apps)}.")
             lines.append(f"Definition ex_{i} : list vname := {clist(ext, common.cstr)}.")
+            lines.append(f"Definition s0_{i} : mstate := {st['s0']}.")
+            lines.append(f"Definition sf_{i} : mstate := {st['sfinal']}.")
+            lines.append(f"Definition ev_{i} : list event := {clist(st['events'])}.")
         lst = clist([f"({i}, check_host ap_{i} g0_{i} gf_{i})" for i in range(len(chunk))])
         lines.append(f"Definition results : list (nat * (nat * nat * nat)) := {lst}.")
         lines.append("Eval vm_compute in (filter (fun r => negb (Nat.eqb (fst (fst (snd r))) 0)) results).")
@@ -692,18 +759,25 @@ def coq_replay(ctx, cases, shard=40):
         # C07_pass_keeps_order) and the observed final graph is ordered
         lst = clist([f"({i}, check_order ex_{i} ap_{i} g0_{i} && topo_graph ex_{i} gf_{i})" for i in range(len(chunk))])
         lines.append(f"Eval vm_compute in (map fst (filter (fun r => negb (snd r)) {lst})).")
+        # the whole container state (imports, initializers, functions, node and value metadata) after the logged visits and
+        # splices, as OV.Rewrite.State predicts it, against the state observed when the sweep ended
+        lst = clist([f"({i}, check_state {FLAGS[0]} ev_{i} g0_{i} s0_{i} gf_{i} sf_{i})" for i in range(len(chunk))])
+        lines.append(f"Eval vm_compute in (filter (fun r => negb (Nat.eqb (fst (fst (snd r))) 0 && Nat.eqb (snd (snd r)) 0)) {lst}).")
         bodies.append("\n".join(lines))
         labels.append([c[0] for c in chunk])
     failing = {}
     uncovered = 0
     unordered = []
+    STATE_DIFF.clear()
     if not bodies:
         return failing, uncovered, unordered
     outs = ctx.coq_eval_shards(REQ, bodies, par=8)
     for (ok, vals, raw), labs in zip(outs, labels):
-        if not ok or len(vals) < 3:
+        if not ok or len(vals) < 4:
             ctx.tie_broken("correspondence", "apply:model-evaluation", raw[-1500:])
             return None, 0, []
+        for m in re.finditer(r"\((\d+),\s*\(?(\d+),\s*(\d+),\s*(\d+)\)?\)", re.sub(r"%\w+", "", vals[3])):
+            STATE_DIFF[labs[int(m.group(1))]] = (int(m.group(2)), int(m.group(3)), int(m.group(4)))
         unordered += [labs[i] for i in common.parse_nat_list(vals[2])]
         for m in re.finditer(r"\((\d+),\s*\(?(\d+),\s*(\d+),\s*(\d+)\)?\)", re.sub(r"%\w+", "", vals[0])):
             failing[labs[int(m.group(1))]] = (int(m.group(2)), int(m.group(3)))
@@ -1269,14 +1343,17 @@ def run(ctx):
     ctx.assume("kernel semantics abstract in every theorem (any deterministic `sem`); the replacement's equivalence to the pattern "
                "(seg_equiv) is a hypothesis, discharged by construction for the generated rules and measured on onnxruntime "
                "(ORT_DISABLE_ALL) / onnx.reference for every host")
-    ctx.assume("model covers patterns whose outputs all belong to the root node; patterns with several output nodes, "
-               "initializer/opset/function registration, as_function extraction, metadata merging and progress are observed on the real "
-               "code only (checker, execution, structure diff)")
+    ctx.assume("model covers patterns whose outputs all belong to the root node; patterns with several output nodes and progress are "
+               "observed on the real code only (checker, execution, structure diff); initializer/opset/function registration, as_function "
+               "extraction and metadata merging are modelled in Rewrite/State.v and replayed per sweep; NameFixPass is not modelled; the "
+               "`repaired` flags of State.v model the proposed patches, which are not applied to the source")
     ctx.assume("a call of a model-local function is an opaque kernel in Graph/Sem.v; a rewrite inside a function body is covered as a "
                "rewrite of that body's graph")
     ctx.trust("harness/c07_trace.py: wrappers around RewriteRuleSet._apply_to_graph_or_function, RewriteRule.try_rewrite and "
               "onnx_ir.convenience.replace_nodes_and_values (observation only), token assignment, IR -> Coq literal printers")
     ctx.check_props()
+    displaced, owner = probe_flags()
+    ctx.cover(source_has_initializer_clash_repair=displaced, source_has_function_subgraph_imports_repair=owner)
 
     quick = ctx.tier == "quick"
     n_hosts = len(RULE_SETS) * (8 if quick else 60)
@@ -1310,6 +1387,21 @@ def run(ctx):
                        "graph the implementation ended with is ordered (topo_graph)", not unordered, "; ".join(unordered[:5]))
         for u in unordered[:5]:
             ctx.tie_broken("correspondence", "apply:order-conditions", f"{u}: check_order / topo_graph false")
+    if failing is not None:
+        COMP = {0: "", 1: "opset imports", 2: "initializers", 3: "functions table", 4: "node metadata_props", 5: "value metadata_props",
+                9: "node lists"}
+        ECODE = {1: "path leads nowhere", 2: "the model raises (conflicting opset versions / no overload)", 3: "ill-formed application",
+                 5: "extracted function is not the matched nodes in graph order behind the copied constants, or the call node does not "
+                    "carry the new overload"}
+        sdiff = {k: v for k, v in STATE_DIFF.items() if k.split("/")[0] not in violated and k not in failing}
+        for label, (code, step, comp) in sorted(sdiff.items())[:8]:
+            why = f"event {step}: {ECODE.get(code, code)}" if code else f"predicted and observed {COMP.get(comp, comp)} differ"
+            ctx.tie_broken("correspondence", "state:replay", f"{label}: {why}")
+        ctx.obligation(f"correspondence state: on {len(cases)} sweeps the visits and splices of the real rewriter replayed through "
+                       "Rewrite/State.v (flags " + FLAGS[0] + ") reproduce the opset imports of every graph object, the initializers, the "
+                       "functions table (extracted body = matched nodes in graph order behind the copied constants, least unused overload, "
+                       "imports filtered from the parent), node and value metadata_props observed when the sweep ended", not sdiff,
+                       "; ".join(f"{k}:{v}" for k, v in list(sdiff.items())[:5]))
     bad_wf, bad_imp = coq_wf(ctx, wf)
     if bad_wf is not None:
         for label in bad_wf:
